@@ -163,7 +163,9 @@ def membership_semantics(ctx: Ctx):
                     if ("self.public", True) in facts:
                         good = good and isinstance(p.value, ast.Constant) and p.value.value is True
                     elif ("self.public", False) in facts:
-                        rows = cmp.predicate_table(p.value, {f"len(self.memberships_in_common({o}))": "k"}, grid=range(0, 4))
+                        inter = {f"len(self.memberships_in_common({o}))": "k", f"len(self.memberships.intersection({o}.memberships))": "k", f"len(self.memberships & {o}.memberships)": "k",
+                                 f"len({o}.memberships.intersection(self.memberships))": "k", f"len({o}.memberships & self.memberships)": "k"}
+                        rows = cmp.predicate_table(p.value, inter, grid=range(0, 4))
                         good = good and not cmp.compare_table(rows, lambda g, f: g["k"] > 0)
                     else:
                         return False
